@@ -233,7 +233,11 @@ def key_rule(chk, rid, runs):
                 # a local that merely holds an attribute of the schedule (or a constant) does not vary per operation
                 is_attr = is_lin(src) and any(rec.state.entails_eq(src - Lin.sym(a)) == "yes"
                                               for a in rec.state.symbols() if a.startswith("self."))
-                if s and not s.startswith("self.") and not from_table and not is_attr and (sv is None or len(sv) > 1):
+                # a storage that is a component of the stack element being read travels with that element: the element
+                # is identified by its position, not by a (storage, step) key
+                carried = is_lin(src) and any(rec.state.entails_eq(src - Lin.sym(a)) == "yes"
+                                              for a in rec.state.symbols() if a.startswith(("top(", "popped(")))
+                if s and not s.startswith("self.") and not from_table and not is_attr and not carried and (sv is None or len(sv) > 1):
                     multi = True
         if not multi:
             continue
